@@ -154,6 +154,46 @@ def instrument(obj, label):
         pass
 
 
+class IOProxy:
+    """stands in for a module-level io.StringIO / io.BytesIO object (a per-process scratch buffer shared by all threads):
+    mutating calls are W events, reading calls R events on the location (label, 'content')"""
+    _W = ('write', 'writelines', 'truncate', 'seek')
+    _R = ('getvalue', 'read', 'readline', 'readlines', 'tell')
+
+    def __init__(self, real, label):
+        object.__setattr__(self, '_real', real)
+        object.__setattr__(self, '_schedsmt_label', label)
+
+    def __getattr__(self, name):
+        real = object.__getattribute__(self, '_real')
+        label = object.__getattribute__(self, '_schedsmt_label')
+        attr = getattr(real, name)
+        if name in IOProxy._W:
+            def w(*a, **k):
+                return REC.hit('W', label, 'content', (name, token(a)), lambda: attr(*a, **k))
+            return w
+        if name in IOProxy._R:
+            def r(*a, **k):
+                return REC.hit('R', label, 'content', None, lambda: attr(*a, **k))
+            return r
+        return attr
+
+
+def instrument_module_buffers(prefixes=('DocumentTemplate', 'TreeDisplay')):
+    """module-level io buffers of the code under test are shared by every thread: wrap them (none exist on the pinned tree)"""
+    import io
+    import sys
+    n = 0
+    for mname, mod in list(sys.modules.items()):
+        if mod is None or not mname.startswith(prefixes):
+            continue
+        for name, val in list(vars(mod).items()):
+            if isinstance(val, (io.StringIO, io.BytesIO)):
+                setattr(mod, name, IOProxy(val, '%s.%s' % (mname, name)))
+                n += 1
+    return n
+
+
 class LogLock:
     """wraps DT_String.COOKLOCK: acquire/release become events; acquisition happens inside the scheduler slot"""
 
@@ -209,6 +249,14 @@ def instrument_template(template, cooked):
     if cooked:
         template.cook()
     objs = shared_objects(template, cooked)
+    # helper objects handed out by the template's own factory methods are shared iff the SAME object comes back twice
+    for fname in ('tagre',):
+        try:
+            a, b = getattr(template, fname)(), getattr(template, fname)()
+        except Exception:
+            continue
+        if a is b and hasattr(a, '__dict__'):
+            objs.append(a)
     counts = {}
     for o in objs:
         nm = type(o).__name__
